@@ -401,9 +401,47 @@ func isNillableType(t types.Type) bool {
 // enumTable extracts {case constant -> result constant} from a function `switch p { case K: out = V }`.
 func enumTable(fn *ssa.Function) map[string]string {
 	out := map[string]string{}
+	// caseOf: the constant K such that block b is entered only through the equal edge of `x == K`
+	caseOf := func(b *ssa.BasicBlock) *ssa.Const {
+		for hops := 0; hops < 2 && b != nil; hops++ {
+			if len(b.Preds) != 1 {
+				return nil
+			}
+			p := b.Preds[0]
+			if ifi, ok := p.Instrs[len(p.Instrs)-1].(*ssa.If); ok {
+				a := core.NormCond(ifi.Cond)
+				if a.Op != token.EQL {
+					return nil
+				}
+				var kc *ssa.Const
+				if x, ok := a.X.(*ssa.Const); ok {
+					kc = x
+				} else if y, ok := a.Y.(*ssa.Const); ok {
+					kc = y
+				}
+				idx := 0
+				if a.Negated {
+					idx = 1
+				}
+				if kc != nil && kc.Value != nil && p.Succs[idx] == b {
+					return kc
+				}
+				return nil
+			}
+			b = p
+		}
+		return nil
+	}
 	core.AllInstrs(fn, func(in ssa.Instruction) {
 		ret, ok := in.(*ssa.Return)
 		if !ok {
+			return
+		}
+		// `case K: return V`
+		if k, isK := ret.Results[0].(*ssa.Const); isK && k.Value != nil {
+			if kc := caseOf(ret.Block()); kc != nil {
+				out[kc.Value.ExactString()] = k.Value.ExactString()
+			}
 			return
 		}
 		phi, ok := ret.Results[0].(*ssa.Phi)
